@@ -515,4 +515,72 @@ example :
       (encodeV3 exFileLogs).length := by
   decide +kernel
 
+/-! ### Translation tie, continued: the constructor `KdBufParser.__init__`
+
+  `tools/gen_pyir_rd.py` also translates `KdBufParser.__init__(self, threads_pids=None, pids_names=None)` into
+  `Gen.PyIRRd.prog.init : PyIRRd.CtorDef` (so `source_is_expected_ir` above — and in C02 / C06 — covers it): the attribute
+  initialisers SORTED by attribute (every value is a display, `None`, or `{} if <parameter> is None else <parameter>` over a
+  parameter that is never rebound — they do not depend on each other; `dict()` = `{}`); `self.versions` is the dict display
+  of `prog.parse`.  `PyIRRd.runCtor d given m₀` constructs the object: `given[k]` says whether the k-th argument is a dict
+  or `None` (omitted arguments take the default, `None`); `m₀` stands for whatever the metadata attributes would show if
+  an initialiser were missing.  `CtorObj.toPState t`: the state `PState` of the hand model, given the contents `t` of the
+  caller's two dicts. -/
+
+/-- **kd_init_ir_eq_model.**  The interpreted constructor yields the initial state the reader model starts from — for
+    every combination of given / `None` arguments, whatever `m₀`:
+    * a table that was passed IS the caller's dict (`TableRef.arg k`: `set_thread_map` and the log loop then write the
+      caller's tables), a table that was not is a new empty dict;
+    * the metadata is exactly `{}` = `V3Meta`'s defaults, the `md` of `PyIRRd.St.init` that `parse` / `parseV3` / `tailV3`
+      start from: `trace_codes = ''`, `kernel_extensions = {'Binaries': []}` (the list the first kernel-extension block
+      extends), `dyld_modules = {}` (empty, so the first dyld block seeds it), `images = {}`, `processes = {}`,
+      `v3_header = None`;
+    * hence `toPState t = ⟨the tables given (else empty), {}⟩`. -/
+theorem kd_init_ir_eq_model (m₀ : V3Meta) (t : Tables) (a b : Bool) :
+    ∃ o, PyIRRd.runCtor Gen.PyIRRd.prog.init [a, b] m₀ = .ok o ∧
+      o.threadsPids = some (if a then .arg 0 else .fresh) ∧ o.pidsNames = some (if b then .arg 1 else .fresh) ∧
+      o.md = {} ∧
+      o.toPState t = some ⟨⟨if a then t.threadsPids else [], if b then t.pidsNames else []⟩, {}⟩ := by
+  rw [source_is_expected_ir.1]
+  cases a <;> cases b <;> exact ⟨_, rfl, rfl, rfl, rfl, rfl⟩
+
+/-- omitted arguments are `None` arguments; a third argument is a `TypeError` -/
+theorem kd_init_defaults (m₀ : V3Meta) (a : Bool) :
+    PyIRRd.runCtor Gen.PyIRRd.prog.init [] m₀ = PyIRRd.runCtor Gen.PyIRRd.prog.init [false, false] m₀ ∧
+    PyIRRd.runCtor Gen.PyIRRd.prog.init [a] m₀ = PyIRRd.runCtor Gen.PyIRRd.prog.init [a, false] m₀ ∧
+    ∀ x y z, PyIRRd.runCtor Gen.PyIRRd.prog.init [x, y, z] m₀ = .error .typeError := by
+  rw [source_is_expected_ir.1]
+  exact ⟨rfl, rfl, fun _ _ _ => rfl⟩
+
+/-- **Request level.**  `PyKdebugParser.kevents` / `os_log_events` build a FRESH parser per request on the object's two
+    tables — `KdBufParser(self.threads_pids, self.pids_names).parse(kdebug)`, translated in `Model/PyIRFl`
+    (`Stmt.parseStream`; `C12.source_is_expected_ir`, `kevents_ir_eq_model`) —, `__main__` builds `KdBufParser({}, {})`.
+    For the object the interpreted constructor builds on the caller's tables `t`, the interpreted `parse` of ANY byte string
+    is the hand model `parse` started from `⟨t, {}⟩`: no metadata of an earlier request is visible, and the events and the
+    final exception are those of `EndToEnd.freshParser` (`Proofs/EndToEnd.parseV3_prior_irrelevant`). -/
+theorem kd_fresh_parser_parse (plist : Bytes → Option PView) (m₀ : V3Meta) (t : Tables) (data : Bytes) :
+    ∃ o st, PyIRRd.runCtor Gen.PyIRRd.prog.init [true, true] m₀ = .ok o ∧ o.toPState t = some st ∧ st = ⟨t, {}⟩ ∧
+      PyIRRd.parseVia Gen.PyIRRd.prog plist fromKdBuf st data = parse plist fromKdBuf ⟨t, {}⟩ data := by
+  obtain ⟨o, h1, _, _, _, h5⟩ := kd_init_ir_eq_model m₀ t true true
+  exact ⟨o, ⟨t, {}⟩, h1, h5, rfl, (parse_is_interpreted_source plist ⟨t, {}⟩ data).symm⟩
+
+/-- without arguments (`KdBufParser()`): the state `EndToEnd.freshParser` of the end-to-end model -/
+theorem kd_init_no_arguments (m₀ : V3Meta) (t : Tables) :
+    ∃ o, PyIRRd.runCtor Gen.PyIRRd.prog.init [] m₀ = .ok o ∧ o.toPState t = some EndToEnd.freshParser := by
+  obtain ⟨o, h1, _, _, _, h5⟩ := kd_init_ir_eq_model m₀ t false false
+  exact ⟨o, by rw [(kd_init_defaults m₀ false).1]; exact h1, h5⟩
+
+/-- non-vacuity: whatever the attributes "held" (`m₀` with junk in every field), the generated constructor leaves the
+    defaults; and the interpreter tells when an initialiser is missing or has the wrong display. -/
+example : (PyIRRd.runCtor Gen.PyIRRd.prog.init [true, true]
+      ⟨some ([1], [2]), [3], [4], some [5], false, some [6], some [7], some [8]⟩).toOption.map (·.md) = some {} := by
+  decide
+
+example : (PyIRRd.runCtor { Gen.PyIRRd.prog.init with sets := Gen.PyIRRd.prog.init.sets.filter (·.1 ≠ .v3Header) }
+      [true, true] ⟨some ([1], [2]), [], [], none, true, none, none, none⟩).toOption.map (·.md.header) =
+    some (some ([1], [2])) := by decide
+
+/-- `self.kernel_extensions = {}` is not the display the block loop needs (`['Binaries']` of an empty dict: `KeyError`) -/
+example : (PyIRRd.runCtor { Gen.PyIRRd.prog.init with sets := [(.md .kernelExtensions, .display .emptyDict)] }
+    [true, true] {}).toOption = none := by decide
+
 end KdVerif.C03
